@@ -175,4 +175,43 @@ Proof.
   intros Hd Hi. rewrite (proj2 (summate_incompr_cell ks z1 z2 pos d i Hd Hi)).
   apply incompr_point_is_vfield.
 Qed.
+
+(* entries of a table built with map/seq *)
+Lemma aget2_table (F : nat -> nat -> T) m n d i : d < m -> i < n ->
+  aget2 z (map (fun d => map (fun i => F d i) (seq 0 n)) (seq 0 m)) d i = F d i.
+Proof.
+  intros Hd Hi. unfold aget2, arow.
+  change (nth d (map (fun d0 => map (fun i0 => F d0 i0) (seq 0 n)) (seq 0 m)) [])
+    with (aget [] (map (fun d0 => map (fun i0 => F d0 i0) (seq 0 n)) (seq 0 m)) d).
+  rewrite (aget_map_seq [] (fun d0 => map (fun i0 => F d0 i0) (seq 0 n)) m d Hd).
+  apply aget_map_seq. exact Hi.
+Qed.
+Lemma table_shape (F : nat -> nat -> T) m n : 0 < m ->
+  shape0 (map (fun d => map (fun i => F d i) (seq 0 n)) (seq 0 m)) = m /\
+  shape1 (map (fun d => map (fun i => F d i) (seq 0 n)) (seq 0 m)) = n.
+Proof.
+  intros Hm. unfold shape0, shape1. rewrite map_length, seq_length. split; auto.
+  change (nth 0 (map (fun d0 => map (fun i0 => F d0 i0) (seq 0 n)) (seq 0 m)) [])
+    with (aget [] (map (fun d0 => map (fun i0 => F d0 i0) (seq 0 n)) (seq 0 m)) 0).
+  rewrite (aget_map_seq [] (fun d0 => map (fun i0 => F d0 i0) (seq 0 n)) m 0 Hm).
+  now rewrite map_length, seq_length.
+Qed.
+
+(* the modelled generator call, entry by entry: the affine map of IncomprRandMeth.__call__ applied to the
+   field function at the i-th point *)
+Theorem incompr_generate_pointwise mean_u var N ks z1 z2 pos nug d i : d < shape0 pos -> i < shape1 pos ->
+  aget2 z (incompr_generate O mean_u var N ks z1 z2 pos nug) d i
+  = incompr_out O mean_u var N d (vfield O ks z1 z2 (acol z pos i) d) (aget2 z nug d i).
+Proof.
+  intros Hd Hi. unfold incompr_generate, incompr_call, summate_incompr_spec.
+  destruct (table_shape (fun d i => incompr_point O ks z1 z2 pos d i) (shape0 pos) (shape1 pos)) as [S0 S1]; [lia|].
+  rewrite S0, S1. rewrite aget2_table by auto. rewrite aget2_table by auto.
+  now rewrite incompr_point_is_vfield.
+Qed.
+Corollary incompr_generate_no_nugget mean_u var N ks z1 z2 pos d i : d < shape0 pos -> i < shape1 pos ->
+  aget2 z (incompr_generate O mean_u var N ks z1 z2 pos (repeat (repeat z (shape1 pos)) (shape0 pos))) d i
+  = velocity O mean_u var N ks z1 z2 (acol z pos i) d.
+Proof.
+  intros Hd Hi. rewrite incompr_generate_pointwise by auto. unfold velocity. now rewrite aget2_repeat.
+Qed.
 End Refine.
